@@ -19,6 +19,8 @@ def run(model, rep, tier):
     r3_report_condition(ctx, rep)
     r4_enumerator(ctx, rep)
     r5_formatter_reports_what_it_was_given(ctx, rep)
+    from . import robust
+    robust.asserts_have_no_effects(ctx, rep, 'C19.R20', 'C19')
     rep.units['cfg'] = ctx.cfg_stats
 
 
